@@ -87,6 +87,19 @@ def faultReply (b : Backend) (kind : String) (nice : Reply) (g : Nat) : Reply :=
   | "stall_body" => { arr := .silent }
   -- HTTP: an error status without any body
   | "status_nobody" => { status200 := false }
+  -- PAN-OS: HTTP 200 and a well-formed <response> whose status is anything but "success"
+  -- (unauth, failure, a missing attribute, an unknown word, another letter case; with or
+  -- without <msg>): "success" is the ONLY good value
+  | "rej_unauth" => { parses := false }
+  | "rej_failure" => { parses := false }
+  | "rej_nostatus" => { parses := false }
+  | "rej_word" => { parses := false }
+  | "rej_case" => { parses := false }
+  | "rej_error_nomsg" => { parses := false }
+  -- NSX: status 200 with a JSON error document (used on requests whose body the program does not read)
+  | "json_error_200" => { parses := false }
+  -- NSX: any 4xx / 5xx with a JSON error body
+  | "rej_4xx" => { status200 := false }
   | "truncated" =>
     if g == 0 then { arr := .silent }
     else if nice.arr == .noPrompt then nice else { nice with arr := .noPrompt }
